@@ -42,6 +42,14 @@ Theorem c02_notify : forall st blk sender o st' ms,
   step st blk sender o = Ok (st', ms) -> ms = expected_msgs sender o.
 Proof. exact notify_exact. Qed.
 
+(* the step contract S_C02 (all 5 clauses) that every run evaluates on the implementation never fires on the
+   model's own transition, accepted or refused *)
+Theorem c02_contract_never_fires_on_model : forall pre post blk sender o ms,
+  let st := state_of_obs pre false in let st' := state_of_obs post false in
+  sorted ordNN (allow st) -> step st blk sender o = Ok (st', ms) -> s_c02 pre post blk sender o true ms = 0.
+Proof. exact s_c02_sound. Qed.
+Theorem c02_contract_never_fires_on_refusal : forall pre blk sender o, s_c02 pre pre blk sender o false [] = 0.
+Proof. exact s_c02_sound_refused. Qed.
 Example c02_nonvacuous :
   exists st, instantiate (mkInit [(Some 1, 500)] None) = Ok st /\
     ghost st [(mkBlock 1 1, 1, IncreaseAllowance (Some 2) 50 (Some (AtHeight 5)), true);
@@ -58,3 +66,5 @@ Print Assumptions c02_allowance_frame.
 Print Assumptions c02_allowance_step.
 Print Assumptions c02_cumulative.
 Print Assumptions c02_notify.
+Print Assumptions c02_contract_never_fires_on_model.
+Print Assumptions c02_contract_never_fires_on_refusal.
